@@ -76,3 +76,17 @@ Section Lifts.
       intros e' He'. apply Hall. right. exact He'.
   Qed.
 End Lifts.
+
+(* the number of channel reports of a round never exceeds the number of channels the outcome holds (which C14 caps at
+   MaxOutcomeChannelDefinitionsLength = libocr's MaxReportCount) *)
+Lemma length_omap_le' {A B} (f : A -> option B) (l : list A) : (length (omap f l) <= length l)%nat.
+Proof. induction l as [|x l IH]; [cbn; lia|]. cbn [omap list_omap]. destruct (f x); cbn [length]; lia. Qed.
+Theorem reports_count_le_channels cf seq o : (length (snd (reports_of cf seq o)) <= size (o_defs o))%nat.
+Proof.
+  unfold reports_of. destruct (seq <=? 1); [cbn; lia|]. cbn [snd].
+  etransitivity; [apply length_omap_le'|]. unfold reportable_channels.
+  rewrite (Permutation.Permutation_length (SortProofs.isort_perm Z.ltb _)).
+  match goal with |- (length (filter ?p ?l) <= _)%nat => assert (Hf : (length (filter p l) <= length l)%nat) end.
+  { match goal with |- (length (filter ?p ?l) <= _)%nat => generalize l; intros l0; induction l0 as [|x l0 IH]; cbn; [lia|destruct (p x); cbn; lia] end. }
+  etransitivity; [exact Hf|]. rewrite map_length. pose proof (map_to_list_length (o_defs o)) as Hm. unfold size, map_size. lia.
+Qed.
